@@ -55,13 +55,19 @@ class LoadFamily:
                 if rng.random() < 0.3:
                     wf = flow.strip_ids(wf, rng)
             models.append(wf)
+        churn = rng.random() < opts.get('churn', 0.0)
+        if churn:
+            # processes that end at once (every end makes the engine look for processes to restore from the store) next to
+            # processes that are being launched at that very moment
+            models.append({'id': 'mt', 'inputs': {'a': 0, 'b': 0, 't': 0}, 'outputs': {'t': None}, 'steps': [{'id': 'st', 'acts': [{'id': 'at', 'uses': MSG, 'key': 'mt'}]}]})
         N = rng.choice(opts.get('ns') or [2, 4, 8])
         cap = rng.choice(opts.get('caps') or [1, 2, 4, N, 1024, 1024])
         workers = rng.choice([1, 2, 4, 8])
         items = []
         for i in range(N):
             j = rng.randrange(nm)
-            items.append({'mid': f'm{j}', 'vars': {'pid': f'p{i}', 'a': rng.randint(0, 3), 'b': rng.randint(0, 3), 't': 7000 + i}})
+            mid_ = 'mt' if churn and rng.random() < 0.5 else f'm{j}'
+            items.append({'mid': mid_, 'vars': {'pid': f'p{i}', 'a': rng.randint(0, 3) if mid_ != 'mt' else 0, 'b': rng.randint(0, 3) if mid_ != 'mt' else 0, 't': 7000 + i}})
         mode = rng.choice(['quiescent', 'quiescent', 'inline'])
         rules = [{'match': {'uses': IRQ}, 'action': 'next', 'times': 100000}]
         immediate = rng.random() < 0.25
@@ -74,6 +80,8 @@ class LoadFamily:
         rt = {'flavor': 'multi', 'workers': workers, 'chaos': {'max_yields': 3, 'seed': rng.randrange(1, 1 << 40)}}
         if storm:
             rt['chaos']['pause_us'] = rng.choice([30, 100, 300])
+        if churn:
+            rt['chaos']['pause_us'] = rng.choice([100, 300, 600])
         L = {'id': '', 'family': 'load', 'sched': f'N{N}-cap{cap}-w{workers}-{mode}', 'seed': rng.randrange(1 << 30), 'runtime': rt, 'engine': {'store': 'mem', 'keep_processes': True, 'cache_cap': cap},
              'models': [json.dumps(m) for m in models], 'responder': {'mode': mode, 'order': 'seeded', 'rules': rules, 'max_rounds': 100000}, 'ops': ops, 'watchdog_ms': 90000}
         solos = []
